@@ -1,0 +1,77 @@
+//! Verification hooks. Compiled only with `--cfg rust_ndarray_ndarray_stats_verif`;
+//! with the cfg off this file is not part of the crate.
+//!
+//! * `thread_rng()` / `HookRng::gen_range`: a stand-in for `rand::thread_rng()` in `sort.rs`
+//!   that lets a harness choose every pivot (a thread-local script; `kani::any()` under Kani).
+//!   Without a script it delegates to the real `rand::thread_rng()`.
+//! * re-exports of crate-private functions that harnesses outside the crate need.
+use rand::Rng;
+use std::cell::RefCell;
+use std::ops::Range;
+
+thread_local! {
+    // (script, position, trace of (choice, range length))
+    static SCRIPT: RefCell<Option<(Vec<usize>, usize)>> = RefCell::new(None);
+    static TRACE: RefCell<Vec<(usize, usize)>> = RefCell::new(Vec::new());
+}
+
+/// Install (or remove) a pivot script for the current thread and clear the trace.
+/// While a script is installed, the k-th draw from a range of length `m` returns
+/// `start + script[k] % m`, or `start` once the script is exhausted.
+pub fn set_pivot_script(script: Option<Vec<usize>>) {
+    SCRIPT.with(|s| *s.borrow_mut() = script.map(|v| (v, 0)));
+    TRACE.with(|t| t.borrow_mut().clear());
+}
+
+/// The draws made since the last `set_pivot_script`: (choice relative to the range start, range length).
+pub fn pivot_trace() -> Vec<(usize, usize)> {
+    TRACE.with(|t| t.borrow().clone())
+}
+
+pub struct HookRng {
+    _priv: (),
+}
+
+pub fn thread_rng() -> HookRng {
+    HookRng { _priv: () }
+}
+
+impl HookRng {
+    pub fn gen_range(&mut self, r: Range<usize>) -> usize {
+        // rand 0.8 panics on an empty range
+        assert!(r.start < r.end, "cannot sample empty range");
+        #[cfg(kani)]
+        {
+            let x: usize = kani::any();
+            kani::assume(x >= r.start && x < r.end);
+            return x;
+        }
+        #[cfg(not(kani))]
+        {
+            let m = r.end - r.start;
+            let scripted = SCRIPT.with(|s| {
+                let mut s = s.borrow_mut();
+                match s.as_mut() {
+                    None => None,
+                    Some((v, pos)) => {
+                        let c = if *pos < v.len() { v[*pos] % m } else { 0 };
+                        *pos += 1;
+                        Some(c)
+                    }
+                }
+            });
+            let c = match scripted {
+                Some(c) => c,
+                None => rand::thread_rng().gen_range(0..m),
+            };
+            TRACE.with(|t| t.borrow_mut().push((c, m)));
+            r.start + c
+        }
+    }
+}
+
+pub use crate::maybe_nan::{verif_cast_view_mut as cast_view_mut, verif_remove_nan_mut as remove_nan_mut};
+pub use crate::quantile::interpolate::verif_index_api::{
+    float_quantile_index_fraction, higher_index, lower_index,
+};
+pub use crate::sort::verif_get_many_from_sorted_mut_unchecked as get_many_from_sorted_mut_unchecked;
